@@ -12,6 +12,7 @@ variable written in the body is poisoned at the start of the iteration, so readi
 carried over from the previous iteration is reported as unsupported (needs a fold rule).
 """
 import ast
+import copy
 
 import z3
 
@@ -733,7 +734,82 @@ def erase_loop(I, st, env, it, recv_node):
     env.vars[st.target.id] = Poison("loop variable after an abstracted loop")
 
 
+class _StrFold(ast.NodeTransformer):
+    """`acc += E` -> `$chunk_acc += E` for the string accumulators of a loop body"""
+
+    def __init__(self, names):
+        self.names = names
+
+    def visit_AugAssign(self, node):
+        if isinstance(node.target, ast.Name) and node.target.id in self.names and isinstance(node.op, ast.Add):
+            return ast.copy_location(ast.AugAssign(target=ast.Name(id="$chunk_" + node.target.id, ctx=ast.Store()),
+                                                   op=ast.Add(), value=node.value), node)
+        return node
+
+
+def string_accumulators(st, env):
+    """names that the loop body only ever extends with `name += <expr>` and never reads, and that hold a string before
+    the loop: the loop then computes  name ++ concat(flatMap(body chunk))  (R-STRFOLD: the per-iteration chunk is the
+    concatenation of what the iteration adds, in order; lemma foldl_append_eq_join, lean/Lifting.lean)"""
+    aug, other = set(), set()
+    for node in ast.walk(ast.Module(body=st.body, type_ignores=[])):
+        if isinstance(node, ast.AugAssign) and isinstance(node.target, ast.Name) and isinstance(node.op, ast.Add):
+            aug.add(node.target.id)
+        if isinstance(node, (ast.Break, ast.Continue, ast.Return)):
+            return []
+    for node in ast.walk(ast.Module(body=st.body, type_ignores=[])):
+        if isinstance(node, ast.Name) and node.id in aug:
+            other.add((node.id, isinstance(node.ctx, ast.Load)))
+    out = []
+    for n in sorted(aug):
+        if (n, True) in other:
+            continue  # read somewhere in the body
+        writes = [x for x in ast.walk(ast.Module(body=st.body, type_ignores=[]))
+                  if isinstance(x, ast.Name) and x.id == n and isinstance(x.ctx, ast.Store)]
+        augs = [x for x in ast.walk(ast.Module(body=st.body, type_ignores=[]))
+                if isinstance(x, ast.AugAssign) and isinstance(x.target, ast.Name) and x.target.id == n]
+        if len(writes) != len(augs):
+            continue  # also assigned otherwise
+        try:
+            v = env.lookup(n)
+        except KeyError:
+            continue
+        if isinstance(v, str) or (is_z3(v) and v.sort() == core.STR):
+            out.append(n)
+    return out
+
+
+def strfold_for(I, st, env, it, names):
+    chunk_init = [ast.Assign(targets=[ast.Name(id="$chunk_" + n, ctx=ast.Store())], value=ast.Constant(""))
+                  for n in names]
+    chunk_emit = [ast.Expr(value=ast.Call(func=ast.Attribute(value=ast.Name(id="$chunks_" + n, ctx=ast.Load()),
+                                                             attr="append", ctx=ast.Load()),
+                                          args=[ast.Name(id="$chunk_" + n, ctx=ast.Load())], keywords=[]))
+                  for n in names]
+    body = [_StrFold(set(names)).visit(copy.deepcopy(x)) for x in st.body]
+    new = ast.For(target=st.target, iter=st.iter, body=chunk_init + body + chunk_emit, orelse=[])
+    ast.copy_location(new, st)
+    ast.fix_missing_locations(new)
+    from . import listops
+    for n in names:
+        env.vars["$chunks_" + n] = I.new_list([])
+    abstract_for(I, new, env, it)
+    for n in names:
+        joined = listops.abstract_join(I, "", env.lookup("$chunks_" + n))
+        I.assign(ast.Name(id=n, ctx=ast.Store()), bm.str_concat(I, [env.lookup(n), joined]), env)
+        env.vars.pop("$chunks_" + n, None)
+        env.vars.pop("$chunk_" + n, None)
+
+
 def abstract_for(I, st, env, it):
+    if not getattr(st, "_strfold_done", False):
+        names = string_accumulators(st, env)
+        if names:
+            st._strfold_done = True
+            try:
+                return strfold_for(I, st, env, it, names)
+            finally:
+                st._strfold_done = False
     recv_node = is_erase_loop(st)
     if recv_node is not None and isinstance(it, AList) and I.items_of(it) is None:
         return erase_loop(I, st, env, it, recv_node)
